@@ -6,9 +6,9 @@ CONSTANTS
   Breaks <- BreaksQ
   Degs <- DegsQ
   MaxNpts = 5
-  Acts = {"CvSplit"}
-  PtKinds = {"gen"}
-  WtKinds = {"none", "gen"}
+  Acts = {"CvArith", "CvScalar"}
+  PtKinds = {"gen", "pos"}
+  WtKinds = {"none", "gen", "gen2"}
   ExtraNodes <- Extra0
   NodeSize = 2
   Scenario = "single"
@@ -17,7 +17,7 @@ CONSTANTS
   OtherMaxNpts = 4
 INVARIANT WellFormed
 PROPERTY FailedIsNoOp
-PROPERTY SplitRestricts
+
 ACTION_CONSTRAINT Log
 VIEW View
 CHECK_DEADLOCK FALSE
